@@ -1889,6 +1889,12 @@ feature! {
                 return Some(NonNull::from(self).cast());
             }
 
+            // An empty `Vec` is "no subscriber at all", exactly like
+            // `Option::None`: its `OFF` hint must not override its neighbours'.
+            if id == TypeId::of::<NoneLayerMarker>() && self.is_empty() {
+                return Some(NonNull::from(&NONE_LAYER_MARKER).cast());
+            }
+
             // Someone is looking for per-subscriber filters. But, this `Vec`
             // might contain subscribers with per-subscriber filters *and*
             // subscribers without filters. It should only be treated as a
